@@ -107,9 +107,29 @@ def py_context(case, ctx, kind=None):
     kind = kind or case["kind"]
     if kind == "dense":
         vals = [to_py(v) for v in ctx]
-        return tuple(vals) if case.get("container", "tuple") == "tuple" else vals
+        cont = case.get("container", "tuple")
+        if cont in ("tuple", "list"):
+            return tuple(vals) if cont == "tuple" else vals
+        # coba's own row objects, as real pipelines deliver them
+        from coba.pipes import rows as R
+        if cont == "sparsedense":       # what Densify / Environments.dense produce: dense view over the non-zero entries
+            return R.SparseDense({i: v for i, v in enumerate(vals) if not (isinstance(v, (int, float)) and v == 0)}, len(vals))
+        if cont == "lazydense":
+            return R.LazyDense(lambda vals=vals: vals)
+        if cont == "headdense":
+            return R.HeadDense(vals, {"h%d" % i: i for i in range(len(vals))})
+        raise ValueError(cont)
     if kind == "sparse":
-        return {k: to_py(v) for k, v in ctx}
+        d = {k: to_py(v) for k, v in ctx}
+        cont = case.get("scontainer", "dict")
+        if cont == "dict":
+            return d
+        from coba.pipes import rows as R
+        if cont == "lazysparse":
+            return R.LazySparse(lambda d=d: d)
+        if cont == "headsparse":
+            return R.HeadSparse(d, {k: k for k in d}, {k: k for k in d})
+        raise ValueError(cont)
     return to_py(ctx)
 
 
@@ -152,6 +172,20 @@ def same_py(a, b):
         return len(a) == len(b) and all(same_py(x, y) for x, y in zip(a, b))
     if isinstance(a, dict) and isinstance(b, dict):
         return a.keys() == b.keys() and all(same_py(a[k], b[k]) for k in a)
+    def seq_like(x):
+        return not isinstance(x, (str, bytes, dict)) and hasattr(x, "__len__") and hasattr(x, "__iter__") and hasattr(x, "__getitem__")
+    if type(a) is type(b) and not isinstance(a, (list, tuple, dict)):
+        # coba row objects: compare what they hold (their == uses eq element-wise, which fails on nan)
+        if hasattr(a, "items") and hasattr(a, "keys"):
+            try:
+                return same_py(dict(a.items()), dict(b.items()))
+            except Exception:
+                pass
+        elif seq_like(a):
+            try:
+                return same_py(list(a), list(b))
+            except Exception:
+                pass
     try:
         if a == b:
             return True
@@ -202,6 +236,44 @@ def make_filter(case, stat=None):
     return Scale(**kw) if case["op"] == "scale" else Impute(**kw)
 
 
+MemEnv = None
+
+
+def mem_env_class():
+    """a picklable in-memory coba Environment (module attribute `MemEnv`, so pickle finds it by reference)"""
+    global MemEnv
+    if MemEnv is None:
+        from coba.primitives import Environment
+
+        class _MemEnv(Environment):
+            def __init__(self, items):
+                self._items = items
+
+            def read(self):
+                return self._items
+
+            @property
+            def params(self):
+                return {}
+
+        _MemEnv.__name__ = _MemEnv.__qualname__ = "MemEnv"
+        _MemEnv.__module__ = __name__
+        MemEnv = _MemEnv
+    return MemEnv
+
+
+def clone_of(obj, how):
+    """a copy of a filter object / of a whole Environments pipeline, as they reach worker processes or user code"""
+    import pickle
+    if how == "pickle":
+        return pickle.loads(pickle.dumps(obj))
+    if how == "deepcopy":
+        return copy.deepcopy(obj)
+    if how == "copy":
+        return copy.copy(obj)
+    raise ValueError(how)
+
+
 def run_impl(case, rows=None, kind=None):
     """run the real filter; returns dict(out=[canonical contexts] | err=.., others_ok, mutated, n)"""
     import warnings
@@ -225,8 +297,11 @@ def run_impl(case, rows=None, kind=None):
                 def params(self):
                     return {}
 
-            base = list(Environments(_Env(inter))[0].read())
-            envs = Environments(_Env(inter))
+            mk_env = _Env
+            if case.get("clone"):
+                mk_env = mem_env_class()  # must be picklable by reference
+            base = list(Environments(mk_env(inter))[0].read())
+            envs = Environments(mk_env(inter))
             if case["op"] == "scale":
                 envs = envs.scale(**call_kwargs(case))
             else:
@@ -236,13 +311,25 @@ def run_impl(case, rows=None, kind=None):
                 else:
                     envs = envs.impute(**call_kwargs(case))
             res["n_envs"] = len(envs)
+            orig_envs = envs
+            if case.get("clone"):
+                envs = clone_of(envs, case["clone"])     # the copy is made before the original is ever read
             res["params"] = canon_params(envs[0].params)
             out = list(envs[0].read())
+            if case.get("clone"):
+                o2 = {"params": canon_params(orig_envs[0].params)}
+                res["original"] = finish_run(o2, list(orig_envs[0].read()), base, before, inter)
         else:
             base = inter
             flt = make_filter(case)
+            orig = flt
+            if case.get("clone"):
+                flt = clone_of(flt, case["clone"])
             res["params"] = canon_params(flt.params)
             out = list(flt.filter(inter))
+            if case.get("clone"):
+                o2 = {"params": canon_params(orig.params)}
+                res["original"] = finish_run(o2, list(orig.filter(inter)), inter, before, inter)
     except Exception as e:  # noqa: the kind of exception is part of the observable
         res["err"] = type(e).__name__
         res["msg"] = str(e)[:200]
@@ -254,6 +341,20 @@ def run_impl(case, rows=None, kind=None):
 def finish_run(res, out, base, before, inter):
     """canonical observable of one run: contexts, other fields vs. the baseline, input mutation"""
     res["n"] = len(out)
+    # a dense context is read by iterating it (list(ctx), Finalize, learners) or by index: after the filter has written into
+    # it both readings, repeated, must agree
+    for k, o in enumerate(out):
+        c = o.get("context") if hasattr(o, "get") else None
+        if c is not None and not isinstance(c, (str, dict)) and hasattr(c, "__len__") and hasattr(c, "__getitem__") and not hasattr(c, "keys"):
+            try:
+                by_index = [c[i] for i in range(len(c))]
+                it1, it2 = list(c), list(c)
+                if not (same_py(by_index, it1) and same_py(it1, it2)):
+                    res["views_bad"] = "interaction %d (%s): by index %r, iterated %r, iterated again %r" % (k, type(c).__name__, by_index, it1, it2)
+                    break
+            except Exception as e:  # noqa
+                res["views_bad"] = "interaction %d (%s): reading the context raised %s" % (k, type(c).__name__, type(e).__name__)
+                break
     res["out"] = [canon_context(o["context"]) if "context" in o else "nocontext" for o in out]
     others_ok = len(out) == len(base)
     bad = None
@@ -506,6 +607,8 @@ class Ref:
         else:
             if impl["err"] == "KeyError" and self.kind == "sparse" and f["none"]:
                 return "sparse-none-cell"
+            if impl["err"] == "TypeError" and "SparseDense" in msg and case.get("container") == "sparsedense":
+                return "sparsedense-context"
         return "%s:other" % self.kind
 
     def shift_is_zero(self):
@@ -912,7 +1015,10 @@ class C11(Property):
             "call in a PRNG-chosen order, each judged against its own reference. Phase 3: 7% of numeric columns are MIXED (strings among "
             "numbers: first cell, last, one, many), keywords are left out in 12% each (documented defaults), targets 'context' as str/list, "
             "['context','context'], 'rewards', using=0, scale 0 / shift 0.0 — configurations outside the quantifier (mixed numbers, using=0, "
-            "other targets) are compared with the model only ((A) outputs and .params vs the modelled argument glue). "
+            "other targets) are compared with the model only; round e: dense contexts are also coba's own row objects (SparseDense as Densify "
+            "produces, LazyDense, HeadDense; LazySparse, HeadSparse) and every result context is read by index and by repeated iteration; "
+            "in 12% of the cases a pickle / deepcopy / copy of the filter object or of the whole Environments pipeline does the work and the "
+            "original is used afterwards (both judged, configurations equal) ((A) outputs and .params vs the modelled argument glue). "
             "non-trivial = at least one cell is pinned by the exact reference and at least one value changes; distinct by canonical JSON")
     trusted_base = [
         "values are ints / dyadic floats with few bits so min/max/median/iqr/mode are exact in double precision; results involving a division "
@@ -1057,7 +1163,7 @@ class C11(Property):
                 break
         op = base["op"]
         mode = "envs" if rng.chance(0.5) else "reuse"
-        table_keys = ("kind", "rows", "container", "itype")
+        table_keys = ("kind", "rows", "container", "scontainer", "itype")
         subs = [{k: base[k] for k in table_keys if k in base}]
         for _ in range(rng.choice([1, 1, 2])):
             while True:
@@ -1065,7 +1171,7 @@ class C11(Property):
                 if other["rows"] and other["rows"][0] != "nocontext":
                     break
             subs.append({k: other[k] for k in table_keys if k in other})
-        case = {k: v for k, v in base.items() if k not in table_keys and k not in ("via", "stats_as_list", "omit", "targets", "targets_as_str")}
+        case = {k: v for k, v in base.items() if k not in table_keys and k not in ("via", "stats_as_list", "omit", "targets", "targets_as_str", "clone")}
         if op == "scale" and any(sc["kind"] == "sparse" for sc in subs) and rng.chance(0.7):
             case["shift"] = V(0)
         if op == "impute" and mode == "reuse":
@@ -1088,7 +1194,7 @@ class C11(Property):
         if kind == "scalar":
             case["rows"] = cols[0]
         elif kind == "dense":
-            case["container"] = rng.choice(["tuple", "list"])
+            case["container"] = rng.choice(["tuple", "list", "tuple", "list", "sparsedense", "sparsedense", "lazydense", "headdense"])
             case["rows"] = [[cols[j][i] for j in range(m)] for i in range(n)]
         else:
             names = ["a", "b", "c", "d"][:m]
@@ -1121,6 +1227,10 @@ class C11(Property):
                 if case["via"] == "env" and rng.chance(0.3):
                     case["stats_as_list"] = True
             case["ind"] = rng.chance(0.5)
+        if kind == "sparse" and rng.chance(0.2):
+            case["scontainer"] = rng.choice(["lazysparse", "headsparse"])
+        if rng.chance(0.12) and case.get("container", "tuple") != "lazydense" and case.get("scontainer", "dict") == "dict":
+            case["clone"] = rng.choice(["pickle", "pickle", "deepcopy", "copy"])     # a copy of the filter / pipeline does the work
         # argument glue: keywords left out (the case then states the documented default), targets, using=0, scale 0
         env = case["via"] == "env"
         omit = []
@@ -1234,6 +1344,24 @@ class C11(Property):
         for rows in ([[n(1)], [n(3)], [n(5)]], [[n(0)], [n(2)]], [[f(2.5)], [None], [n(4)], [NAN], [n(-1)]]):
             for sh in ("mean", n(0)):
                 cs.append({"op": "scale", "kind": "dense", "container": "tuple", "rows": rows, "shift": sh, "scale": "std", "using": None, "via": "filter", "itype": "sim"})
+        # coba's own row objects as contexts; copies of filters and pipelines (round e)
+        tab = [[n(1), n(10)], [n(3), n(0)], [n(9), n(20)], [n(5), n(50)]]
+        stab = [[["a", n(2)], ["b", n(10)]], [["a", n(4)], ["b", None], ["c", n(8)]], [["a", n(8)], ["c", n(4)]]]
+        for cont in ("sparsedense", "lazydense", "headdense"):
+            for via in ("filter", "env"):
+                for using in (None, 2):
+                    cs.append({"op": "scale", "kind": "dense", "container": cont, "rows": tab, "shift": "min", "scale": "minmax", "using": using, "via": via, "itype": "sim"})
+                    cs.append({"op": "impute", "kind": "dense", "container": cont, "rows": [[n(1), None], [None, n(0)], [n(3), n(4)]], "stats": ["mean"], "ind": True, "using": using, "via": via, "itype": "sim"})
+        for sc in ("lazysparse", "headsparse"):
+            cs.append({"op": "scale", "kind": "sparse", "scontainer": sc, "rows": stab, "shift": n(0), "scale": "maxabs", "using": 2, "via": "env", "itype": "sim"})
+            cs.append({"op": "impute", "kind": "sparse", "scontainer": sc, "rows": stab, "stats": ["median"], "ind": True, "using": None, "via": "filter", "itype": "sim"})
+        for clone in ("pickle", "deepcopy", "copy"):
+            for via in ("filter", "env"):
+                for cont in ("tuple", "list", "sparsedense"):
+                    cs.append({"op": "scale", "kind": "dense", "container": cont, "rows": tab, "shift": "min", "scale": "minmax", "using": 2, "via": via, "itype": "sim", "clone": clone})
+                    cs.append({"op": "scale", "kind": "dense", "container": cont, "rows": tab, "shift": "mean", "scale": "std", "using": 3, "via": via, "itype": "log", "clone": clone, "targets": ["context"]})
+                    cs.append({"op": "impute", "kind": "dense", "container": cont, "rows": [[n(1), None], [None, n(2)], [n(30), n(4)]], "stats": ["mean"], "ind": False, "using": 2, "via": via, "itype": "sim", "clone": clone})
+                cs.append({"op": "impute", "kind": "sparse", "rows": stab, "stats": ["mode"], "ind": True, "using": 1, "via": via, "itype": "sim", "clone": clone})
         # string scalar / string feature with a missing first value
         cs.append({"op": "impute", "kind": "scalar", "rows": [V("a"), None, V("b"), V("c")], "stats": ["median"], "ind": False, "using": None, "via": "filter", "itype": "sim"})
         cs.append({"op": "impute", "kind": "dense", "rows": [[None, n(1)], [V("a"), None], [V("b"), n(2)], [V("c"), n(2)]], "stats": ["median"], "ind": True, "using": None, "via": "filter", "itype": "sim"})
@@ -1400,7 +1528,9 @@ class C11(Property):
             tags.append("outside-quantifier:" + outside)
         # (B) the property, evaluated on the implementation's result with exact arithmetic
         ref = Ref(case, kind, rows, impl, "main")
-        if outside:
+        if outside and "err" in impl and impl["err"] != "CobaException":
+            ref.common()          # an exception is reported whatever the configuration
+        elif outside:
             if "out" in impl and (impl["n"] != len(rows) or not impl.get("others_ok", True)):
                 ref.fail("interactions or fields other than the context changed: %s" % impl.get("others_bad"), "%s-other-field-changed" % op)
         elif ref.common():
@@ -1410,6 +1540,26 @@ class C11(Property):
                 ref.check_impute(case["stats"])
         fails += ref.fails
         tags += sorted(ref.tags)
+        if impl.get("views_bad"):
+            fails.append(F("B", "a result context reads differently by index and by (repeated) iteration after the filter wrote into it: %s"
+                           % impl["views_bad"], "%s-context-reads-inconsistently" % op))
+        if case.get("clone"):
+            tags.append("clone:" + case["clone"])
+        if "original" in impl:
+            # the run above was made with a COPY (pickle / deepcopy / copy) of the filter or of the whole pipeline; the original,
+            # used afterwards, must meet the same reference and keep the same configuration
+            orig = impl["original"]
+            oref = Ref(case, kind, rows, orig, "original after its %s was used" % case["clone"])
+            if not outside and oref.common():
+                if op == "scale":
+                    oref.check_scale()
+                else:
+                    oref.check_impute(case["stats"])
+            fails += oref.fails
+            if orig.get("params") != impl.get("params"):
+                fails.append(F("B", "the %s of the %s has another configuration than the original: %s vs %s" % (
+                    case["clone"], "Environments pipeline" if case.get("via") == "env" else "filter object", impl.get("params"), orig.get("params")),
+                    "%s-copy-changes-configuration" % op))
         if op == "impute" and len(case["stats"]) > 1 and "out" in impl and not in_seq and not outside and not any(f["sig"] == "impute-list-only-last-applied" for f in fails):
             # (B) a list of statistics is applied in order: the same as chaining single-statistic calls (on the implementation itself)
             chain = run_impl(dict(case, chain=True))
@@ -1430,6 +1580,8 @@ class C11(Property):
             tk = tkind.rstrip("*")
             tcase = dict(case, kind=tk, rows=trows, via="filter")
             tcase.pop("omit", None)        # the twin states every argument explicitly
+            for kx in ("clone", "container", "scontainer"):
+                tcase.pop(kx, None)
             if op == "impute" and len(case["stats"]) > 1:
                 continue
             timpl = run_impl(tcase)
@@ -1681,7 +1833,7 @@ class C11(Property):
             for c in self.shrink_single(dict(cfg, **sub)):
                 if any(c.get(k) != cfg.get(k) for k in cfg):
                     continue          # only the table is shrunk here
-                yield dict(case, seq=subs[:i] + [{k: c[k] for k in ("kind", "rows", "container", "itype") if k in c}] + subs[i + 1:])
+                yield dict(case, seq=subs[:i] + [{k: c[k] for k in ("kind", "rows", "container", "scontainer", "itype") if k in c}] + subs[i + 1:])
 
     def shrink_single(self, case):
         rows = case["rows"]
